@@ -47,17 +47,21 @@ def run(pid, tier):
         recs.append(rec)
     # canaries
     cans = []
-    b = next(r for r in recs if r['status'] == 'ok' and r['inst']['fmt'] == 'solomon' and len(r['routes']) >= 1 and len(r['inst']['custs']) >= 2 and r['reread']['status'] == 'ok'
-             and any(n['d'] > 0 for n in r['inst']['custs']) and len(r['P']['locs']) >= 3)
-    c = copy.deepcopy(b); c['P']['caps'][0] += 1; cans.append((c, 'FleetAsFile'))
-    c = copy.deepcopy(b); c['P']['jobs'][0]['tasks'][0]['delS'] += 1; cans.append((c, 'CustomersAsFile'))
-    c = copy.deepcopy(b); c['P']['jobs'][0]['tasks'][0]['e'] += 1; cans.append((c, 'CustomersAsFile'))
-    c = copy.deepcopy(b); c['P']['jobs'][0]['id'] += 7; cans.append((c, 'IdsAsFile'))
-    c = copy.deepcopy(b); c['P']['dist'][0][1] += 100; cans.append((c, 'DistancesEuclidean'))
-    c = copy.deepcopy(b); c['reread']['routes'] = [list(reversed(x)) for x in c['reread']['routes']] + [[99]]; cans.append((c, 'InitRoundTrip'))
-    c = copy.deepcopy(b); c['routes'] = c['routes'] + [list(c['routes'][0])]; cans.append((c, 'RoutesPartition'))
-    c = copy.deepcopy(b); c['inst']['q'] = 0; c['P']['caps'] = [0] * len(c['P']['caps']); cans.append((c, 'RoutesFeasible'))
-    c = copy.deepcopy(b); c['status'] = 'panic'; cans.append((c, 'Parsed'))
+    can_skip = False
+    try:
+        b = next(r for r in recs if r['status'] == 'ok' and r['inst']['fmt'] == 'solomon' and len(r['routes']) >= 1 and len(r['inst']['custs']) >= 2 and r['reread']['status'] == 'ok'
+                 and any(n['d'] > 0 for n in r['inst']['custs']) and len(r['P']['locs']) >= 3)
+        c = copy.deepcopy(b); c['P']['caps'][0] += 1; cans.append((c, 'FleetAsFile'))
+        c = copy.deepcopy(b); c['P']['jobs'][0]['tasks'][0]['delS'] += 1; cans.append((c, 'CustomersAsFile'))
+        c = copy.deepcopy(b); c['P']['jobs'][0]['tasks'][0]['e'] += 1; cans.append((c, 'CustomersAsFile'))
+        c = copy.deepcopy(b); c['P']['jobs'][0]['id'] += 7; cans.append((c, 'IdsAsFile'))
+        c = copy.deepcopy(b); c['P']['dist'][0][1] += 100; cans.append((c, 'DistancesEuclidean'))
+        c = copy.deepcopy(b); c['reread']['routes'] = [list(reversed(x)) for x in c['reread']['routes']] + [[99]]; cans.append((c, 'InitRoundTrip'))
+        c = copy.deepcopy(b); c['routes'] = c['routes'] + [list(c['routes'][0])]; cans.append((c, 'RoutesPartition'))
+        c = copy.deepcopy(b); c['inst']['q'] = 0; c['P']['caps'] = [0] * len(c['P']['caps']); cans.append((c, 'RoutesFeasible'))
+        c = copy.deepcopy(b); c['status'] = 'panic'; cans.append((c, 'Parsed'))
+    except StopIteration:
+        can_skip = True          # no record to corrupt (the code under test answered nothing of that kind): judged below
     fj = os.path.join(d, 'judge.ndjson')
     common.write_ndjson(fj, recs + [c[0] for c in cans])
     jr = common.tlc('JudgeSci', env={'RECS': fj}, workers=1, name=pid + '-judge', timeout=6000, xmx='8g')
@@ -78,6 +82,8 @@ def run(pid, tier):
         verdict.add('C13/%s/%s' % (name, r['inst']['fmt']), 'instance %s: %s' % (rid, json.dumps({k: res[i - 1].get(k) for k in ('status', 'error', 'caps', 'jobs', 'routes', 'unassigned', 'reread', 'solve')})[:400]),
                     {'instance': r['inst'], 'text': cases[i - 1]['text'], 'observed': res[i - 1]})
     rc = verdict.finish()
+    if can_skip and rc == 0:
+        raise ToolError('no base record for the vacuity canaries and no violation reported')
     by = collections.Counter(r['inst']['fmt'] for r in recs)
     cov = {'states': jr.distinct, 'transitions': jr.generated, 'traces_validated_against_impl': len(recs), 'evaluations': len(recs),
            'distinct_nontrivial': sum(1 for r in recs if r['routes']),
